@@ -38,7 +38,7 @@ def sha(fn):
     return hashlib.sha256(open(fn, "rb").read()).hexdigest() if os.path.exists(fn) else None
 
 
-def mk_spec(rng, cols=None, units=None, meta=None, nrows=None):
+def mk_spec(rng, cols=None, units=None, meta=None, nrows=None, f32=None):
     """A table specification: ordered columns with units, metadata, rows (dyadic values)."""
     if meta is None:
         meta = dict(t_ref=[None, float(rng.integers(50000, 59000)) + 0.25][int(rng.integers(0, 2))], poly_trend=int(rng.integers(1, 3)),
@@ -55,8 +55,19 @@ def mk_spec(rng, cols=None, units=None, meta=None, nrows=None):
     if units is None:
         units = {c: UNITS[c][int(rng.integers(0, len(UNITS[c])))] for c in cols}
     nrows = nrows if nrows is not None else int(rng.integers(1, 41))
-    rows = (np.round(rng.normal(0, 50, (nrows, len(cols))) * 256) / 256).tolist()
-    return dict(cols=cols, units=units, meta=meta, rows=rows)
+    rows = np.round(rng.normal(0, 50, (nrows, len(cols))) * 256) / 256
+    spec = dict(cols=cols, units=units, meta=meta)
+    if f32 is None:
+        f32 = cols[int(rng.integers(0, len(cols)))] if len(cols) > 1 and rng.random() < 0.3 else ""
+    if f32:
+        # one single-precision column (its values k/256 are exact in float32) next to double-precision columns whose values are NOT
+        # representable in single precision: every read must return them bit for bit
+        spec["f32"] = f32
+        for j, c in enumerate(cols):
+            if c != f32:
+                rows[:, j] += 2.0**-36 * (1 + np.arange(nrows))
+    spec["rows"] = rows.tolist()
+    return spec
 
 
 def build_samples(spec):
@@ -75,7 +86,8 @@ def build_samples(spec):
     s = JokerSamples(t_ref=tref, poly_trend=m["poly_trend"], n_offsets=m["n_offsets"])
     arr = np.array(spec["rows"], float).reshape(len(spec["rows"]), len(spec["cols"]))
     for j, c in enumerate(spec["cols"]):
-        s[c] = arr[:, j] * u.Unit(spec["units"][c])
+        col = arr[:, j].astype(np.float32) if spec.get("f32") == c else arr[:, j]
+        s[c] = col * u.Unit(spec["units"][c])
     return s
 
 
@@ -111,6 +123,9 @@ def gen_cases(ctx):
                  ["write", "write_ow_app", "read", "append", "read"], ["write", "append", "write_ow_app", "idx", "read", "write_ow_app", "read"],
                  # every flag combination on a file that does not exist yet creates it
                  ["append", "read", "append", "slice", "read"], ["write_ow_app", "read", "append", "read"], ["write_ow", "read", "write", "read"])]
+    # a table with one single-precision column: slice, index and random reads that request it first, then append and read again
+    scripted += [dict(seed=int(rng.integers(0, 2**31)), fits=False, f32=True, script=sc) for sc in
+                 (["write", "slice", "idx", "random", "read"], ["write", "append", "slice", "slice", "idx"])]
     return load_corpus("C12") + scripted + [dict(seed=int(rng.integers(0, 2**31)), fits=bool(k % 7 == 6)) for k in range(n_seq)]
 
 
@@ -160,7 +175,12 @@ def run_sequence(ctx, case):
         os.unlink(fn)
     problems, ops, summary = [], [], []
     model = None  # python mirror of what should be in the file: (cols, units, meta, rows)
+    model_f32 = ""  # which column of the file is single precision ("" = none)
     base = mk_spec(rng)
+    if case.get("f32"):
+        while len(base["cols"]) < 3:
+            base = mk_spec(rng)
+        base = mk_spec(rng, cols=base["cols"], units=base["units"], meta=base["meta"], nrows=max(5, len(base["rows"])), f32=base["cols"][int(rng.integers(0, len(base["cols"])))])
     n_ops = 3 if case["fits"] else len(case["script"]) if case.get("script") else int(rng.integers(3, 9))
     for k in range(n_ops):
         if case["fits"]:
@@ -186,7 +206,7 @@ def run_sequence(ctx, case):
                 if spec is None:
                     continue
             elif kind == "append" and model is not None:
-                spec, why = mk_spec(rng, cols=model[0], units=model[1], meta=model[2], nrows=int(rng.integers(1, 12))), None
+                spec, why = mk_spec(rng, cols=model[0], units=model[1], meta=model[2], nrows=int(rng.integers(1, 12)), f32=model_f32), None  # same column dtypes as the file
             else:
                 spec, why = (mk_spec(rng) if kind in ("write_ow", "write_ow_app") else base if model is None else mk_spec(rng)), None
             # write_ow_app: overwrite=True together with append=True replaces the table
@@ -195,10 +215,14 @@ def run_sequence(ctx, case):
             s = build_samples(spec)
             if len(s) > 0 and k % 2 == 1:
                 # queries on the object before it is written (one row picked by integer, the median-period row): what is written is still the whole table
-                _ = s[0]
-                _ = s[len(s) - 1]
-                if "P" in s.par_names:
-                    _ = s.median_period()
+                try:
+                    _ = s[0]
+                    _ = s[len(s) - 1]
+                    if "P" in s.par_names:
+                        _ = s.median_period()
+                except Exception as e:
+                    problems.append(f"op {k} {kind}: picking single rows of the table about to be written raised {type(e).__name__}: {str(e)[:120]}")
+                    break
             try:
                 s.write(fn, overwrite=ow, append=app)
                 res = "WOk"
@@ -226,6 +250,8 @@ def run_sequence(ctx, case):
             if res != "WOk" and sha(fn) != before:
                 problems.append(f"op {k}: refused {kind}({why}) altered the file")
             if res == "WOk":
+                if exp == "WOk" and not (app and not ow and model is not None):
+                    model_f32 = spec.get("f32", "")  # a fresh table (first write, overwrite, overwrite+append)
                 model = new_model if exp == "WOk" else (spec["cols"], spec["units"], spec["meta"], None)
             if not case["fits"] and os.path.exists(fn):
                 # the file layout Gen/WriteGen.v speaks about: exactly the table dataset and its serialized-header dataset, always together
@@ -262,6 +288,11 @@ def run_sequence(ctx, case):
             n = len(model[3])
             ncol = int(rng.integers(1, len(model[0]) + 1))
             cols = [str(c) for c in rng.permutation(model[0])[:ncol]]
+            if case.get("f32") and model_f32:
+                # the single-precision column is the FIRST one requested, followed by double-precision columns
+                cols = [model_f32] + [c for c in cols if c != model_f32]
+                if len(cols) == 1:
+                    cols.append(next(c for c in model[0] if c != model_f32))
             units = {}
             for c in cols:
                 if rng.random() < 0.5 or case.get("script"):
